@@ -114,6 +114,9 @@ func main() {
 			o.MaxNonCore = 5
 		}
 		t := segs.Gen(rng, o)
+		if i%6 == 5 { // hand-shaped families random generation rarely hits
+			t = segs.Directed(rng, i/6)
+		}
 		down := map[addr.IA][]*seg.PathSegment{}
 		var cores []*seg.PathSegment
 		runs := 1 + rng.Intn(3)
